@@ -20,7 +20,7 @@ import unicodedata
 from mc.explore import Stats, pmap, chunks, seeded_rng, HarnessError
 from ref import neutral as N, observe as O
 
-META = ['"', '\\', '$', '`', ',', ':', '\n', '\r', '\t', ' ', '>', '<', 'n', 's', '[', '{']
+META = ['"', '\\', '$', '`', ',', ':', '\n', '\r', '\t', ' ', '>', '<', 'n', 's', '[', '{', 'u', u'\u00e9', '\x01']
 CELL_POS = ['str-cell', 'uri-cell', 'ref-dis', 'xstr-payload']
 CONT_POS = ['grid-meta', 'col-meta', 'dict-value', 'list-element', 'nested-cell']
 L, R = ('str', 'LEFT'), ('str', 'RIGHT')
@@ -193,7 +193,7 @@ def meta_strings(maxlen):
 
 LOOKALIKES = ['n:1', 'n:1 kg', 's:x', 'm:', 'z:', 'x:', '-:', 'r:x', 'r:x y', 'u:x', 'b:x', 'd:2020-01-01', 'h:12:00', 't:2020-01-01T00:00:00Z UTC',
               'c:1,2', 'x:a:b', 'N', 'NA', 'M', 'R', 'T', 'F', 'INF', 'NaN', '1', '1kg', '@a', '[1]', '{"a":1}', '"x"', '>>', '<<', '>>\n', '\n\n', 'a\n\nb',
-              '\r\n\r\n', 'ver:"3.0"', '\\u0041', '\\n', '\\$', '\\\\"', 'a b', ' x', 'x ']
+              '\r\n\r\n', 'ver:"3.0"', '\\u0041', '\\n', '\\$', '\\\\"', 'a b', ' x', 'x ', '\\\\u0041', 'C:\\data\\ubad0', '\\u005cn', u'\\\u00e9t\u00e9', u'\u00e9\\', '\\U0041']
 
 
 def run(ctx):
@@ -235,7 +235,7 @@ def run(ctx):
         'stats': st, 'exhaustive': True,
         'single_outcome_ok': True,
         'rule': 'complete enumeration of (payload x position x format): payload = every listed code point as a 1-character string and every '
-                'string of length <= %d (cells) / <= %d (container positions) over the 16-symbol metacharacter alphabet plus prefix look-alikes; '
+                'string of length <= %d (cells) / <= %d (container positions) over the 19-symbol metacharacter alphabet plus prefix look-alikes; '
                 'packed per grid and bisected on failure; evaluations = documents dumped and re-parsed; distinct = distinct (format, position, '
                 'version, payload); every payload is non-trivial (it is placed between two sentinel cells in a two-grid document)' % (
                     3, 2 if ctx.quick else 3),
